@@ -26,6 +26,7 @@ type genCtx struct {
 	ndefs     int  // $defs d0..d{n-1}
 	uneval    bool // profile: bias towards unevaluated* interactions
 	noRef     bool
+	noAnnot   bool // no non-asserting keywords (families whose base document must be undecorated)
 	anchors   bool // emit $anchor on defs and refer to them by anchor as well
 	smallNums bool // instance numbers stay small (set when the document uses multipleOf: the property's
 	// domain is "quotient below 2^53 where the float arithmetic is exact")
@@ -270,6 +271,19 @@ func (g *genCtx) schema(depth int, inplaceMin int) Doc {
 			}
 		}
 	}
+	if !g.noAnnot && r.chance(1, 6) {
+		// non-asserting keywords ride along: they must never change a verdict (C18, C01)
+		switch r.intn(5) {
+		case 0, 1:
+			add("default", g.value(1))
+		case 2:
+			add(pick(r, []string{"title", "description", "$comment"}), DStr(pick(r, strPool)))
+		case 3:
+			add(pick(r, []string{"readOnly", "writeOnly", "deprecated"}), DBool(true))
+		default:
+			add("format", DStr(pick(r, []string{"date", "email", "nonsense"})))
+		}
+	}
 	return o
 }
 
@@ -439,6 +453,29 @@ func (g *genCtx) instFor(root Doc, s Doc, depth int) Doc {
 		if r.chance(1, 6) && len(out) > 0 {
 			out = append(out, out[r.intn(len(out))]) // a duplicate, for uniqueItems
 		}
+		if r.chance(1, 8) {
+			// a bucket with three entries: unequal values for which hashValue writes the same
+			// bytes under every seed (null/false, true/"\x01", ["a","b"]/["ab",""]), around a real duplicate
+			pairs := [][2]Doc{{DNull{}, DBool(false)}, {DBool(true), DStr("\x01")}, {DArr{DStr("a"), DStr("b")}, DArr{DStr("ab"), DStr("")}}}
+			p := pick(r, pairs)
+			x, y := p[r.intn(2)], p[0]
+			if docEq(x, y) {
+				y = p[1]
+			}
+			tri := []Doc{x, y, x}
+			if r.chance(1, 3) {
+				tri = []Doc{x, y, y}
+			} else if r.chance(1, 3) {
+				tri = []Doc{x, y}
+			}
+			at := 0
+			if len(out) > 0 {
+				at = r.intn(len(out) + 1)
+			}
+			no := append(DArr{}, out[:at]...)
+			no = append(no, tri...)
+			out = append(no, out[at:]...)
+		}
 		return out
 	case "number", "integer":
 		return DNum(g.num())
@@ -556,12 +593,32 @@ func genValCase(r *rng, id string, profile string) *ValCase {
 		g.anchors = false
 	}
 	doc := g.document(2 + r.intn(2))
+	var fixed []Doc
+	if profile != "uneval" && r.chance(1, 5) {
+		// a small schema decided by one or two keywords, densely decorated with non-asserting
+		// and unknown keywords, with enumerated instances (see gendecor.go)
+		var base Doc
+		switch r.intn(4) {
+		case 0, 1:
+			base, fixed = g.smallObjDoc()
+		case 2:
+			base, fixed = g.smallArrDoc()
+		default:
+			base, fixed = g.smallScalarDoc()
+		}
+		if g.draft7 {
+			base = append(DObj{{"$schema", DStr("http://json-schema.org/draft-07/schema#")}}, base.(DObj)...)
+		}
+		dc := &decorator{r: r, d7: g.draft7, kinds: map[string]int{}}
+		doc = dc.schemaPos(base)
+	}
 	c := &ValCase{ID: id, Doc: doc, NoLoader: true, HSeed: r.intn(1000)}
 	kws := map[string]int{}
 	keywordsOf(doc, kws)
 	g.smallNums = kws["multipleOf"] > 0
 	var insts []Doc
-	for i := 0; i < 6; i++ {
+	insts = append(insts, fixed...)
+	for i := 0; i < 6 && fixed == nil; i++ {
 		insts = append(insts, g.instFor(doc, doc, 3))
 	}
 	for i := 0; i < 6; i++ {
@@ -609,3 +666,5 @@ func hasBigNumber(d Doc) bool {
 	}
 	return false
 }
+
+func docEq(a, b Doc) bool { return renderJSON(a) == renderJSON(b) }
